@@ -13,7 +13,8 @@ struct HistCase
                               // keeps its packet objects): what an encoder remembers about "the packet at this address" must not matter
     uint32_t bulkFrames{0};  // > 0: the history starts with one call of that many one-byte packets at max = 25 (one frame each), which
                              // brings the 16-bit sequence counter - the one state that legitimately survives - next to its wrap
-    uint8_t idMode{0};  // 0: the ids are configured once, before the history.  1..3: "arbitrary configurations" - every history call ran
+    uint8_t idMode{0};  // 4: ids configured once for the whole history, changed (both setters) only right before the call under test; 5: restart()
+                        // right before the call under test.  0: the ids are configured once, before the history.  1..3: "arbitrary configurations" - every history call ran
                         // under its own ids (1: device and stream id, 2: only the stream id, 3: only the device id differ), set through the
                         // setters before that call; before the call under test the ids are set to dev / stream
     void io(Ar& a)
@@ -63,12 +64,17 @@ static Verdict runCase(const HistCase& c, Info& info)
     };
     for (const auto& h : c.history)
     {
-        if (c.idMode)
+        if (c.idMode >= 1 && c.idMode <= 3)
         {
             if (c.idMode != 2)
                 a.setDeviceId(h.dev);
             if (c.idMode != 3)
                 a.setStreamId(h.stream);
+        }
+        else if (c.idMode == 4 && &h == &c.history.front())
+        {
+            a.setDeviceId(static_cast<uint16_t>(c.dev + 1));
+            a.setStreamId(static_cast<uint8_t>(c.stream + 1));
         }
         auto owned = c.reuseObjects ? std::vector<lib::Packet>() : buildBatch(h);
         std::vector<lib::Packet>& batch = c.reuseObjects ? fromPool(h) : owned;
@@ -86,20 +92,33 @@ static Verdict runCase(const HistCase& c, Info& info)
             info.tag("history_call_repeated_about_2^7_or_2^8_times");
         }
     }
-    if (c.idMode && !c.history.empty())
+    if (c.idMode == 5 && !c.history.empty())
+    {
+        a.restart();
+        info.tag("restart_right_before_the_call_under_test");
+    }
+    else if (c.idMode && !c.history.empty())
     {
         // only the setters whose value differs are called (a setter restarts the counter; calling both would hide what one alone leaves behind)
         if (c.idMode != 2 && a.getDeviceId() != c.dev)
             a.setDeviceId(c.dev);
         if (c.idMode != 3 && a.getStreamId() != c.stream)
             a.setStreamId(c.stream);
-        info.tag("history_calls_ran_under_other_ids");
+        info.tag(c.idMode == 4 ? "ids_changed_only_right_before_the_call_under_test" : "history_calls_ran_under_other_ids");
     }
     auto ownedLast = c.reuseObjects ? std::vector<lib::Packet>() : buildBatch(c.last);
     std::vector<lib::Packet>& batch = c.reuseObjects ? fromPool(c.last) : ownedLast;
     if (c.reuseObjects)
         info.tag("packet_objects_reused_across_calls");
-    auto fa = encodeVia(a, batch, lib::DataContext{c.last.minB, c.last.maxB}, c.last.overload);
+    std::vector<std::vector<uint8_t>> fa;
+    try
+    {
+        fa = encodeVia(a, batch, lib::DataContext{c.last.minB, c.last.maxB}, c.last.overload);
+    }
+    catch (const std::exception& e)
+    {
+        return Verdict::fail(std::string("the encoder with history threw '") + e.what() + "' for a batch that a fresh encoder encodes");
+    }
     auto fb = encodeVia(b, batch, lib::DataContext{c.last.minB, c.last.maxB}, c.last.overload);
     VF_CHECK(fa.size() == fb.size(), "encoder with history produced " << fa.size() << " frames, fresh encoder " << fb.size());
     bool haveDelta = false;
@@ -216,7 +235,7 @@ static rc::Gen<HistCase> genCase(int tier)
         // version of the last history call (whatever an encoder keeps per configuration must follow the ids too)
         if (!c.history.empty() && *range<int>(0, 3) == 0)
         {
-            c.idMode = *range<uint8_t>(1, 3);
+            c.idMode = *range<uint8_t>(1, 5);
             size_t totalBytes = 0;
             for (const auto& r : c.last.packets)
                 totalBytes += payloadLengthOf(r);
@@ -292,7 +311,7 @@ int main(int argc, char** argv)
         c.last.prior.clear();
         c.last.abortAfter = -1;
         c.reuseObjects = c.reuseObjects ? 1 : 0;
-        c.idMode = static_cast<uint8_t>(c.idMode % 4);
+        c.idMode = static_cast<uint8_t>(c.idMode % 6);
         if (c.repeatLast > 300)
             c.repeatLast = static_cast<uint16_t>(c.repeatLast % 301);
         if (c.history.empty())
